@@ -16,7 +16,7 @@ def scripts(rng, tier, n=None):
     n = n or (30 if tier == "quick" else 500)
     for k in range(n):
         ssrc = rng.randrange(2, 1 << 32)
-        p = rand_policy(rng, ssrc=ssrc, valid=True)
+        p, _ = strat_policy(rng, k, ssrc=ssrc, valid=True)
         wild = rng.random() < 0.35
         if wild:
             # wildcard policies on both sides: the working streams are clones of the template
